@@ -431,6 +431,7 @@ Definition extract_entry_core (g : cfg) (pres : bool) (cwd : path) (dp : list na
     let self := match rel with [] => fixR g | _ => false end in
     match e with
     | EReg _ c m =>
+      if self then None else
       match (if fixW g then unlink_if_symlink f fp else Some f) with
       | None => None
       | Some f0 => chmod_if pres (write_at f0 (Nms fp) c m) fp m
@@ -525,7 +526,15 @@ Record store := mkStore { st_fs : fsys; st_names : list str }.
 Definition push (g : cfg) (pres : bool) (wd cwd : path) (s : store) (o : pushop) : store * bool :=
   let title := push_title o in
   match title with
-  | [] => (s, true)      (* no name: fallback storage, no file-system effect *)
+  | [] =>   (* no name: fallback content-addressed storage, no file-system effect; the same
+               blob twice is "already exists" (recorded under a name no title can have) *)
+    match o with
+    | PBlob _ c =>
+      let mk := [0%N; c] in
+      if existsb (str_eqb mk) (st_names s) then (s, false)
+      else (mkStore (st_fs s) (mk :: st_names s), true)
+    | PDir _ _ _ => (s, true)
+    end
   | _ =>
   if existsb (str_eqb title) (st_names s) then (s, false) else
   match write_path g wd title with
@@ -536,25 +545,42 @@ Definition push (g : cfg) (pres : bool) (wd cwd : path) (s : store) (o : pushop)
     | PBlob _ c =>
       let dir := clean_abs (removelast raw) in
       let made := match (if fixN g then strip_prefix wd dir else None) with
-                  | Some rel => mkdir_real f wd rel 511
+                  | Some rel =>   (* ensureDirNoSymlink: os.MkdirAll(base), then element by element *)
+                    match mkdir_all f (Nms wd) 511 with
+                    | Some f0 => mkdir_real f0 wd rel 511
+                    | None => None
+                    end
                   | None => mkdir_all f (Nms dir) 511
                   end in
       match made with
       | None => (s, false)
       | Some f1 =>
-        match (if fixW g then unlink_if_symlink f1 (clean_abs raw) else Some f1) with
+        match (if fixW g && negb (path_eqb (clean_abs raw) wd)
+               then unlink_if_symlink f1 (clean_abs raw) else Some f1) with
         | None => (mkStore f1 (st_names s), false)
         | Some f1' =>
           match write_at f1' raw c 438 with
           | None => (mkStore f1' (st_names s), false)
-          | Some f2 => (mkStore f2 (title :: st_names s), true)
+          | Some f2 =>
+            match c with
+            | 0%N =>   (* content tag 0 = content that fails verification: the file is removed again *)
+              match remove_at f2 (clean_abs raw) with
+              | Some f3 => (mkStore f3 (st_names s), false)
+              | None => (mkStore f2 (st_names s), false)
+              end
+            | _ => (mkStore f2 (title :: st_names s), true)
+            end
           end
         end
       end
     | PDir _ ts es =>
       let dp := clean_abs raw in
       let made := match (if fixN g then strip_prefix wd dp else None) with
-                  | Some rel => mkdir_real f wd rel 511
+                  | Some rel =>   (* ensureDirNoSymlink: os.MkdirAll(base), then element by element *)
+                    match mkdir_all f (Nms wd) 511 with
+                    | Some f0 => mkdir_real f0 wd rel 511
+                    | None => None
+                    end
                   | None => mkdir_all f raw 511
                   end in
       match made with
